@@ -962,8 +962,10 @@ Definition max_id (G : g_schema) : N := fold_right N.max 0%N (ids G).
 Definition check_clone (l : list sexp) : sexp :=
   match field1 "orig" l, field1 "clone" l, field1 "orig-after" l, field1 "shared" l, field1 "clone-new" l with
   | Some g0, Some g1, Some g2, Some (SL sh), Some (SSym cn) =>
-      match dec_gschema g0, dec_gschema g1, dec_gschema g2 with
+      match dec_gschema g0, dec_gschema g1, (if is_sym "broken" g2 || match tagged "broken" g2 with Some _ => true | None => false end
+                                           then dec_gschema g0 else dec_gschema g2) with
       | Some G0, Some G1, Some G2 =>
+          let broken := is_sym "broken" g2 || match tagged "broken" g2 with Some _ => true | None => false end in
           let old := map zid (ids G0) in
           let builtins := map zid (builtin_ids G0) in
           (* 1. oracle *)
@@ -978,6 +980,7 @@ Definition check_clone (l : list sexp) : sexp :=
                     match shared_ids with
                     | _ :: _ => Some "clone-shares-structure"
                     | [] =>
+                        if broken then Some "original-damaged-by-mutating-clone" else
                         match def_diff (strip G2) (strip G0) with
                         | Some w => Some ("original-changed-by-mutating-clone-" ++ w)
                         | None => if String.eqb cn "ok" then None else Some "clone-rejected-by-schema-New"
